@@ -2,7 +2,8 @@
    Only statements here; proofs are in Proofs/SpanProofs.v; models in Model/Span.v (checked against the
    implementation by vplib/props/c13.py); Gen/GenC13.v is regenerated from /repo on every run. *)
 From Coq Require Import List NArith Bool Arith.
-From PV Require Import Lib.ListX Model.Checked Model.Span Model.SpanBaseline Proofs.SpanProofs Gen.GenC13.
+From PV Require Import Lib.ListX Model.Checked Model.Lexer Model.LexerGen Model.Span Model.InterpSpan Model.SpanBaseline
+  Proofs.SpanProofs Proofs.InterpSpanProofs Gen.GenC13.
 Import ListNotations.
 
 (* ---- the text of the functions Model/Span.v restates is the recorded one (Tie A): composed, compose_location,
@@ -21,6 +22,12 @@ Print Assumptions c13_reason_variants_modelled.
 Theorem c13_simple_literals_nonempty : nonempty_all GenC13.simple_literals = true.
 Proof. vm_compute. reflexivity. Qed.
 Print Assumptions c13_simple_literals_nonempty.
+
+(* the inventory of Error::new_simple(..) sites (file|kind|text, source order) is the one the templates of
+   vplib/props/c13_templates.py were reviewed against: a new error site is an obligation until it has a template *)
+Theorem c13_simple_sites_inventory : same_list GenC13.simple_sites simple_sites_expected = true.
+Proof. vm_compute. reflexivity. Qed.
+Print Assumptions c13_simple_sites_inventory.
 
 (* ---- reason ---- *)
 Theorem c13_reason_nonempty : forall r, reason_display r = [] -> r = RSimple [].
@@ -168,6 +175,38 @@ Theorem c13_parser_span_unit_partial : forall s toks i j,
 Proof. exact parser_span_unit_partial_lemma. Qed.
 Print Assumptions c13_parser_span_unit_partial.
 
+(* F9 as an exact characterisation, for every source: what is reported for a parser error is the location of the
+   characters at the token byte offsets IF AND ONLY IF the text before the end of the span is ASCII (otherwise the
+   assert panic or another line/column) *)
+Theorem c13_parser_span_unit_iff : forall s toks i j,
+  let sp := map_span toks i j 1 in
+  boundary s (sp_start sp) -> boundary s (sp_end sp) -> sp_start sp <= sp_end sp ->
+  (parser_error_location s toks i j = byte_span_location s sp <-> ascii_before_byte s (sp_end sp) = true).
+Proof. exact parser_span_unit_iff. Qed.
+Print Assumptions c13_parser_span_unit_iff.
+
+(* the same at the level of spans: a byte span is also the character span of the same text iff that text and
+   everything before it is ASCII *)
+Theorem c13_byte_span_is_char_span_iff : forall s bs be cs ce,
+  char_of_byte s bs = Ret cs -> char_of_byte s be = Ret ce -> bs <= be ->
+  ((bs = cs /\ be = ce) <-> ascii_before_byte s be = true).
+Proof. exact byte_span_is_char_span_iff. Qed.
+Print Assumptions c13_byte_span_is_char_span_iff.
+
+(* conditional on the repair of F9 (token byte offsets converted to character offsets before `composed` --
+   byte_span_location, what fixes/F9-byte-to-char-spans.diff does): a parser error over tokens i..j of ordered tokens on
+   character boundaries is reported without a panic at the position of the characters where token i starts and token
+   j-1 ends.  The full-strength parser statement, ready for the day the conversion is in the code. *)
+Theorem c13_parser_error_located_if_converted : forall s toks i j,
+  let sp := map_span toks i j 1 in
+  toks_okb 0 toks = true -> i < j -> j <= length toks ->
+  boundary s (sp_start sp) -> boundary s (sp_end sp) ->
+  exists cs ce,
+    byte_span_location s sp = Ret (Some (locate (lines s) cs 0, locate (lines s) ce 0)) /\
+    cs <= ce /\ ce <= length s /\ byte_of_char s cs = sp_start sp /\ byte_of_char s ce = sp_end sp.
+Proof. exact parser_error_located_if_converted. Qed.
+Print Assumptions c13_parser_error_located_if_converted.
+
 (* ---- interpolation rebasing (`span + 2`) ----
    Full statement (FALSE: triple-quoted f/s-strings): forall tok q i_s i_e, interp_rebase tok i_s i_e = interp_actual tok q i_s i_e *)
 Theorem c13_interp_rebase_correct_iff : forall tok q i_s i_e,
@@ -184,6 +223,57 @@ Theorem c13_interp_content_offset : forall pre c q content k,
   byte_of_char (pre ++ c :: q :: content) (length pre + 2 + k) = byte_len pre + 2 + byte_of_char content k.
 Proof. exact interp_content_offset. Qed.
 Print Assumptions c13_interp_content_offset.
+
+(* ---- interpolation rebasing over the whole string-literal grammar (Model/InterpSpan.v on top of the lexer model) ----
+   Full statement (FALSE on HEAD, finding C13-N1):
+     forall s n items tok k1 k2, interp_items gen_tables s = Some (n, items) -> k1 <= k2 ->
+       interp_reported tok items k1 k2 = interp_true tok n items k1 k2
+   i.e. an error over content characters [k1, k2) of an s-/f-string is reported where that text is in the source. *)
+
+(* the provenance-carrying scan is the lexer's scan: erasing the provenance gives Lexer.mq_body, for all inputs *)
+Theorem c13_interp_items_refine_lexer : forall T fuel q n s,
+  mq_body T fuel q n s = match mq_items T fuel q n s with Some (b, r) => Some (erase b, r) | None => None end.
+Proof. exact mq_items_erase. Qed.
+Print Assumptions c13_interp_items_refine_lexer.
+
+(* the regenerated lexer tables satisfy the hypothesis of the theorems below (named escapes stand for ASCII, \x takes 2 digits) *)
+Theorem c13_lex_tables_ok : tables_ok gen_tables = true.
+Proof. vm_compute. reflexivity. Qed.
+Print Assumptions c13_lex_tables_ok.
+
+(* exact characterisation: right iff one quote character and no escape sequence before the end of the error *)
+Theorem c13_interp_rebase_exact : forall T s n items tok k1 k2,
+  tables_ok T = true -> interp_items T s = Some (n, items) -> k1 <= k2 ->
+  (interp_reported tok items k1 k2 = interp_true tok n items k1 k2 <-> n = 1 /\ escapes_before items k2 = false).
+Proof. exact interp_token_correct_iff. Qed.
+Print Assumptions c13_interp_rebase_exact.
+
+Theorem c13_interp_rebase_partial : forall T s n items tok k1 k2,
+  tables_ok T = true -> interp_items T s = Some (n, items) -> k1 <= k2 ->
+  n = 1 -> escapes_before items k2 = false ->
+  interp_reported tok items k1 k2 = interp_true tok n items k1 k2.
+Proof. exact interp_token_partial. Qed.
+Print Assumptions c13_interp_rebase_partial.
+
+(* refuted by an escape with ONE quote character: f-string with body  \n{a +}  between double quotes
+   (content characters 3..4 = the blank after `a`) *)
+Theorem c13_interp_rebase_refuted_escape :
+  exists s n items k1 k2, interp_items gen_tables s = Some (n, items) /\ n = 1 /\ k1 <= k2 /\
+    interp_reported (Span 17 28 1) items k1 k2 <> interp_true (Span 17 28 1) n items k1 k2.
+Proof.
+  exists [34; 92; 110; 123; 97; 32; 43; 125; 34]%N, 1,
+    [Item 10 2 true; Item 123 1 false; Item 97 1 false; Item 32 1 false; Item 43 1 false; Item 125 1 false], 3, 4.
+  split; [vm_compute; reflexivity|]. split; [reflexivity|]. split; [auto|]. vm_compute. discriminate.
+Qed.
+Print Assumptions c13_interp_rebase_refuted_escape.
+
+(* the reported span is never to the right of the text: it is short by (quotes - 1) + the excess bytes of the escapes *)
+Theorem c13_interp_reported_never_right : forall T s n items tok k1 k2,
+  tables_ok T = true -> interp_items T s = Some (n, items) ->
+  sp_start (interp_reported tok items k1 k2) <= sp_start (interp_true tok n items k1 k2) /\
+  sp_end (interp_reported tok items k1 k2) <= sp_end (interp_true tok n items k1 k2).
+Proof. exact interp_token_reported_le. Qed.
+Print Assumptions c13_interp_reported_never_right.
 
 (* ---- hypotheses are satisfiable / the models compute ---- *)
 Example c13_ex_lexer : convert_lexer_error [102;114;111;109;32;233;32;94]%N 8 9 0 = Ret (Span 7 8 0, [94]%N).
@@ -205,6 +295,15 @@ Proof. vm_compute. reflexivity. Qed.
 Example c13_ex_respan_keeps : respan_std (Some (Span 14 15 1)) (Some (Span 9 21 1)) = Some (Span 14 15 1).
 Proof. vm_compute. reflexivity. Qed.
 Example c13_ex_respan_no_call : respan_std (Some (Span 400 410 0)) None = Some (Span 400 410 0).
+Proof. vm_compute. reflexivity. Qed.
+Example c13_ex_interp_items : interp_items gen_tables [34; 120; 92; 34; 121; 34]%N
+  = Some (1, [Item 120 1 false; Item 34 2 true; Item 121 1 false]).   (* x \DQUOTE y between double quotes *)
+Proof. vm_compute. reflexivity. Qed.
+Example c13_ex_predict : predict_reported gen_tables [102; 34; 120; 92; 34; 121; 32; 123; 97; 32; 43; 125; 34]%N 9 10
+  = Some (8, 9, (1, true)).   (* f-string  x \DQUOTE y {a +} : the blank after `a` is at 9..10 of the token, reported at 8..9 (`a`) *)
+Proof. vm_compute. reflexivity. Qed.
+Example c13_ex_exact_hyp : interp_items gen_tables [34; 123; 97; 32; 43; 125; 34]%N
+  = Some (1, [Item 123 1 false; Item 97 1 false; Item 32 1 false; Item 43 1 false; Item 125 1 false]).
 Proof. vm_compute. reflexivity. Qed.
 Example c13_ex_partial_hyp : ascii_before_byte [102;114;111;109;32;233]%N 5 = true.
 Proof. vm_compute. reflexivity. Qed.
